@@ -128,6 +128,16 @@ def part_a(ctx, scratch, quick):
                                         "got": [x.decode("utf-8", "replace") for x in (frows[k] if k < len(frows) else [])],
                                         "want": [x.decode("utf-8", "replace") for x in (want[k] if k < len(want) else [])],
                                         "rows_got": len(frows), "rows_want": len(want)})
+        # an ignore option with no ignore file anywhere changes nothing — in particular it does not cost the rows of
+        # entries whose path cannot be resolved (dangling links, links behind an unlistable directory)
+        ig = r.choice(["dockerignore", "hgignore", "gitignore"])
+        q_ig = "select %s from . %s%s into list" % (", ".join(cols), ig, trav)
+        ctx.case((t, "faulty", q_ig))
+        fi = common.run_cli([q_ig], cwd=root, scratch=scratch, tz=healthy.tz, as_nobody=True)
+        if fi["out"] != f["out"] or fi["status"] != f["status"]:
+            ctx.oracle_fail("an ignore option without any ignore file changes the rows of a faulty tree", dict(case, argv=[q_ig]),
+                            detail={"rows_with_option": fi["out"].count(b"\0") // max(w, 1), "rows_without": f["out"].count(b"\0") // max(w, 1),
+                                    "status": [fi["status"], f["status"]]})
         # (messages are written with eprint!, without a line terminator: only the naming is judged)
         missing = [p for p in reach if (p.encode() + b": ") not in f["err"]]
         if missing or f["err"].count(b"(os error ") != len(reach) or f["status"] != 1:
